@@ -73,3 +73,9 @@ pub proof fn axiom_vec_len(v: &Vec<u8>)
 pub proof fn axiom_slice_len(v: &[u8])
     ensures v.len() <= isize::MAX
 { }
+
+// two live allocations fit in the address space together (each is at most isize::MAX bytes and they do not overlap)
+#[verifier::external_body]
+pub proof fn axiom_two_vecs(a: &Vec<u8>, b: &Vec<u8>)
+    ensures a.len() + b.len() <= isize::MAX
+{ }
